@@ -217,8 +217,14 @@ func C18(tier Tier) int {
 	for i := range stateSets {
 		stateSets[i] = map[string]bool{}
 	}
-	Parallel(nseq*len(activations), func(wk, idx int) {
+	// the header timestamp that accompanies a notification is not part of the rule; four policies:
+	// always 0, proportional to the epoch (as block headers are: a regression carries a lower
+	// timestamp), ascending and descending with the position in the sequence
+	const policies = 4
+	Parallel(nseq*len(activations)*policies, func(wk, idx int) {
 		e := ws[wk]
+		policy := idx % policies
+		idx /= policies
 		act := activations[idx%len(activations)]
 		code := idx / len(activations)
 		env, err := world.NewEnv(world.EnvConfig{NumShards: 1, ActivationEpoch: act})
@@ -231,7 +237,16 @@ func C18(tier Tier) int {
 			ep := epochs[code%len(epochs)]
 			code /= len(epochs)
 			seq = append(seq, ep)
-			env.ConfirmEpoch(ep)
+			var ts uint64
+			switch policy {
+			case 1:
+				ts = 1000 + uint64(ep)*600
+			case 2:
+				ts = 1000 + uint64(step)
+			case 3:
+				ts = 1000 - uint64(step)
+			}
+			env.ConfirmEpochAt(ep, ts)
 			want := ep >= act
 			for _, name := range protocolNames {
 				f, gerr := c.Get(name)
@@ -242,14 +257,14 @@ func C18(tier Tier) int {
 				got := f.IsActive()
 				if epochGated[name] {
 					if got != want {
-						e.Fail(P, "activation", fmt.Sprintf("%s:active=%v-want=%v", name, got, want), fmt.Sprintf("activation epoch %d, confirmed epochs %v: %s reports active=%v, the last confirmed epoch %d >= %d is %v", act, seq, name, got, ep, act, want), "case", fmt.Sprintf("%d %v", act, seq))
+						e.Fail(P, "activation", fmt.Sprintf("%s:active=%v-want=%v", name, got, want), fmt.Sprintf("activation epoch %d, confirmed epochs %v (timestamp policy %d): %s reports active=%v, the last confirmed epoch %d >= %d is %v", act, seq, policy, name, got, ep, act, want), "case", fmt.Sprintf("%d %v p%d", act, seq, policy))
 					}
 				} else if !got {
 					e.Fail(P, "activation", name+":always-active", fmt.Sprintf("%s reports inactive after epochs %v", name, seq), "case", fmt.Sprintf("%d %v", act, seq))
 				}
 			}
 			stateSets[wk][fmt.Sprintf("%d/%d", act, ep)] = true
-			e.Case(fmt.Sprintf("activation:%d:last%d:active%v", act, ep, want))
+			e.Case(fmt.Sprintf("activation:%d:last%d:active%v:ts%d", act, ep, want, policy))
 		}
 	})
 	states := map[string]bool{}
@@ -284,6 +299,38 @@ func C18(tier Tier) int {
 							reg.Fail(P, "registry", "names", fmt.Sprintf("container of shard %d holds %d names %v, the protocol defines the 23 names %v", se.ID, se.Container.Len(), got, want), "case", "names")
 						}
 						reg.Case(fmt.Sprintf("registry:shards%d:enable%v:dns%d", shards, enable, len(dns)))
+					}
+					// a second container from the same factory, after the first one was customised
+					if act == 0 {
+						se := env.Shards[0]
+						first := se.Container
+						types := map[string]string{}
+						for _, n := range protocolNames {
+							if f, err := first.Get(n); err == nil {
+								types[n] = fmt.Sprintf("%T", f)
+							}
+						}
+						first.Remove(vmcommon.BuiltInFunctionESDTWipe)
+						stub, _ := first.Get(vmcommon.BuiltInFunctionESDTPause)
+						_ = first.Replace(vmcommon.BuiltInFunctionClaimDeveloperRewards, stub)
+						second, err := se.Factory.CreateBuiltInFunctionContainer()
+						if err != nil || second == nil {
+							reg.Fail(P, "registry", "second-container:error", fmt.Sprintf("second CreateBuiltInFunctionContainer on the same factory: %v", err), "case", "second")
+						} else {
+							var bad []string
+							for _, n := range protocolNames {
+								f, err := second.Get(n)
+								if err != nil {
+									bad = append(bad, n+" missing")
+								} else if got := fmt.Sprintf("%T", f); got != types[n] {
+									bad = append(bad, fmt.Sprintf("%s bound to %s instead of %s", n, got, types[n]))
+								}
+							}
+							if second.Len() != 23 || len(bad) > 0 {
+								reg.Fail(P, "registry", "second-container:names-or-bindings", fmt.Sprintf("after Remove(ESDTWipe) and Replace(ClaimDeveloperRewards) on the first container, a second container built by the same factory holds %d names; %v", second.Len(), bad), "case", "second")
+							}
+							reg.Case("registry:second-container")
+						}
 					}
 					// configuration-dependent behaviour of SetUserName
 					if shards >= 1 {
